@@ -46,6 +46,17 @@ FACADE_TIE = ("TRANSLATED tie of the list facades: tools/extract_facade.py turns
               "sorted() is a primitive proved equal to the model's merge sort; a facade is the one taken from the current state (stale facades "
               "stay with the stream). 47 semantic edits tried, all caught. ")
 
+CRITPATH_TIE = ("TRANSLATED tie: tools/extract_critpath.py turns, on every run, _PNode / _PLink, the eight methods of CriticalPathCalculator and "
+                "WBS.critical_path (the end_date = None path; the end_date branch and _find_clusters are pinned by text and unreachable from it) "
+                "into a PyLite program; C12_source_critical_path / _perm / _grid (Props/C12Src.lean, Lemmas/CritPathSrc*.lean) prove that "
+                "running it on an acyclic WBS whose member leaves have pairwise different ids returns the model's critical tasks as a set / "
+                "permutation - an algorithmic equivalence (the source builds an activity-on-arrow network of objects and runs two memoised "
+                "recursions, the model characterises the result directly): init_ok (the network built), lpF / ltF (what __forward / __backward "
+                "compute), then the float test abs(r) <= 1e-9 * max(1, length) against the model's r = 0, equal when every length is a multiple "
+                "of 1/8 and the project shorter than 10^8 (C12_source_critical_path_grid). Numbers are rationals: float rounding inside the "
+                "passes is the stream's business (its decimal sub-stream). 26 semantic edits tried: 16 change results and fail kernel-checked "
+                "examples, 4 are result-preserving and fail only the lemmas, 2 tolerance variants differ off the grid only, 4 leave the fragment. ")
+
 LOOPS_TIE = ("TRANSLATED tie of the inner loops: tools/extract_schedule.py turns, on every run, _ResourceUsage.reserved/reserve/__get_key and both "
              "schedulers' __get_resource_nearest_available_date / __shift_by_resource_usage_and_calendar into PyLite terms; the *_source_* theorems "
              "prove that running the translated source on a ledger is the model's function (nearestFwd/shiftFwd/nearestBwd/shiftBwd, reserved) and "
@@ -167,7 +178,7 @@ CLAIMED = {
               "leaf members, bind it. The model is tied to the code by a correspondence stream (links on leaves and summaries, equal-length "
               "branches, zero-length tasks, outside predecessors); the statement's characterisation is also evaluated on the implementation's "
               "result; insensitivity to float rounding cannot be a theorem over rationals and is checked by a second stream with decimal "
-              "fractional estimates (0.1+0.2 vs 0.3) judged by the exact characterisation over the decimals; purity by snapshot."),
+              "fractional estimates (0.1+0.2 vs 0.3) judged by the exact characterisation over the decimals; purity by snapshot." + ' ' + CRITPATH_TIE),
         design='7 (C12)', technique='Lean 4 proof (forward/backward pass = ef / project length - tail) + differential correspondence + decimal-tie stream'),
     'C13': dict(
         text=("Three layers, three theorems, each for unbounded inputs. Text: Python's csv dialect (QUOTE_MINIMAL writer, the reader state "
